@@ -976,3 +976,99 @@ func tracerLockedRule(c *Ctx, rule string, floor int) {
 	}
 	c.Check(n >= floor, rule, "instances", 0, itoa(n)+" tracer methods that touch their tables inspected", "fewer tracer methods found than confirmed by hand")
 }
+
+// pipelineUnmarshalRule: a Pipeline decoded from JSON must lie inside its own
+// geometry: Tick indexes its occupancy table by (stage, lane), so a lane beyond
+// the width panics later, a stage beyond the depth never leaves, and two items in
+// one slot break the one-item-per-slot invariant. UnmarshalJSON compares every
+// decoded item's lane with the width and its stage with the depth and refuses
+// the document (as Buffer.UnmarshalJSON refuses more elements than capacity).
+func pipelineUnmarshalRule(c *Ctx, rule string) {
+	p := c.P
+	f := c.fn(rule, "queueing", "Pipeline", "UnmarshalJSON")
+	if f == nil {
+		return
+	}
+	fn := p.SSAFunc(f)
+	if fn == nil {
+		c.Unknown(rule, "queueing.Pipeline.UnmarshalJSON", p.Decl(f).Pos(), "no SSA body")
+		return
+	}
+	reads := func(v ssa.Value, name string) bool {
+		for y := range DataSlice(fn, v) {
+			if g := FieldOf(y); g != nil && g.Name() == name {
+				return true
+			}
+		}
+		return false
+	}
+	lane, stage := false, false
+	for _, b := range fn.Blocks {
+		for _, in := range b.Instrs {
+			bo, ok := in.(*ssa.BinOp)
+			if !ok {
+				continue
+			}
+			switch bo.Op {
+			case token.GTR, token.LSS, token.GEQ, token.LEQ:
+			default:
+				continue
+			}
+			if (reads(bo.X, "Lane") && reads(bo.Y, "Width")) || (reads(bo.Y, "Lane") && reads(bo.X, "Width")) {
+				lane = true
+			}
+			if (reads(bo.X, "Stage") && reads(bo.Y, "NumStages")) || (reads(bo.Y, "Stage") && reads(bo.X, "NumStages")) {
+				stage = true
+			}
+		}
+	}
+	c.Check(lane && stage, rule, "queueing.Pipeline.UnmarshalJSON", p.Decl(f).Pos(), "every decoded item's lane and stage are compared with the decoded geometry",
+		"UnmarshalJSON installs whatever the document says: an item whose lane is beyond the width makes the next Tick index out of range, one whose stage is beyond the depth never leaves the pipeline, and two items may share a slot — a corrupted checkpoint is accepted and the component fails (or strands a request) later")
+}
+
+// allowedKindsRule: the recorder accepts a table when every field's kind passes
+// isAllowedType, and binds the values with database/sql at flush time. A kind
+// that passes the first test but cannot be bound (complex numbers) is accepted at
+// CreateTable/InsertData and panics at Flush/Close: the batch is never stored.
+// The accepted kinds must be a subset of what the driver's default converter
+// binds: bool, the integer kinds, the float kinds and string.
+func allowedKindsRule(c *Ctx, rule string) {
+	p := c.P
+	f := c.fn(rule, "datarecording", "sqliteWriter", "isAllowedType")
+	if f == nil {
+		return
+	}
+	fd := p.Decl(f)
+	bindable := map[string]bool{"Bool": true, "Int": true, "Int8": true, "Int16": true, "Int32": true, "Int64": true, "Uint": true, "Uint8": true,
+		"Uint16": true, "Uint32": true, "Uint64": true, "Float32": true, "Float64": true, "String": true}
+	bad := ""
+	n := 0
+	ast.Inspect(fd.Body, func(nd ast.Node) bool {
+		cc, ok := nd.(*ast.CaseClause)
+		if !ok {
+			return true
+		}
+		accepts := false
+		for _, st := range cc.Body {
+			if rs, isRet := st.(*ast.ReturnStmt); isRet && len(rs.Results) == 1 {
+				if id, isID := rs.Results[0].(*ast.Ident); isID && id.Name == "true" {
+					accepts = true
+				}
+			}
+		}
+		if !accepts {
+			return true
+		}
+		for _, e := range cc.List {
+			if se, isSel := e.(*ast.SelectorExpr); isSel {
+				n++
+				if !bindable[se.Sel.Name] {
+					bad += se.Sel.Name + " "
+				}
+			}
+		}
+		return true
+	})
+	c.Check(n >= 10 && bad == "", rule, "datarecording.sqliteWriter.isAllowedType", fd.Pos(), "every accepted kind can be bound by the SQL driver",
+		"isAllowedType accepts the kind(s) "+bad+"which database/sql cannot bind: a table with such a field is accepted by CreateTable and InsertData, and Flush/Close panic (\"unsupported type\") — the buffered entries are never stored")
+}
